@@ -1,6 +1,6 @@
 import TinsModel.Threads.Lemmas
 import TinsModel.Threads.Policy
-import TinsModel.Threads.Crc
+import TinsModel.Threads.CrcLemmas
 /- Property C18 — independent objects can be used from different threads.
 
    Part A: theorems about the abstract shared-memory machine, for ALL thread programs, ALL initial configurations
@@ -192,5 +192,14 @@ def nibbleStd (i : UInt32) : UInt32 :=
     0xF0000000 — the form in which the complemented register (initial value 0, no final xor) computes IEEE CRC-32. -/
 theorem crc_table_is_ieee :
     crcTable = (List.range 16).map (fun i => nibbleStd (15 - i).toUInt32 ^^^ 0xF0000000) := by decide
+
+/-- **crc32_reads_table_correctly.**  The code-shaped `Utils::crc32` — the only function on the property paths that
+    reads a non-const static — returns the IEEE 802.3 CRC-32 of its input for EVERY input, given the table values
+    the translator extracted; so every thread that only reads `crc_table` gets the specified result. -/
+theorem crc32_reads_table_correctly (data : List UInt8) : crc32 data = crc32Spec data :=
+  crc32_eq_spec data
+
+/-- non-vacuity: the standard check value of CRC-32 -/
+example : crc32 [0x31, 0x32, 0x33, 0x34, 0x35, 0x36, 0x37, 0x38, 0x39] = 0xCBF43926 := by decide
 
 end Tins.Props.C18
